@@ -76,7 +76,8 @@ def main():
                     elif st["do"] == "graph":
                         tidx, tkey = tables.get(case["lib"], (None, None))
                         rec["lines"].append({"op": "graph", "lib": tkey,
-                                             "nodes": cfgbuild.model_graph(env[st["of"]], lib=lib, stats=rec["argsrc"], table_idx=tidx)})
+                                             "nodes": cfgbuild.model_graph(env[st["of"]], lib=None if data.get("real_flags") else lib,
+                                                                           stats=rec["argsrc"], table_idx=tidx)})
                         rec["impl"].append({"ok": True})
                     elif st["do"] == "op":
                         objs = env[st["on"]]
